@@ -547,6 +547,11 @@ class Unroller(ast.NodeTransformer):
             if all(t and t[0] == "rows" for t in ts):
                 n = min(len(t[1]) for t in ts)
                 return ("rows", [ast.Tuple(elts=[t[1][i] for t in ts], ctx=ast.Load()) for i in range(n)])
+            if any(t and t[0] == "rows" for t in ts) and all((t and t[0] == "rows") or isinstance(a, ast.Name) for t, a in zip(ts, e.args)):
+                # a constant table zipped with a sequence held in a local: the table gives the number of rounds, the
+                # sequence is read by position
+                n = min(len(t[1]) for t in ts if t and t[0] == "rows")
+                return ("rows", [ast.Tuple(elts=[t[1][i] if t and t[0] == "rows" else ast.Subscript(value=copy.deepcopy(a), slice=ast.Constant(value=i), ctx=ast.Load()) for t, a in zip(ts, e.args)], ctx=ast.Load()) for i in range(n)])
             return None
         return None
 
@@ -739,6 +744,25 @@ class Unroller(ast.NodeTransformer):
 
     def visit_For(self, node):
         self.generic_visit(node)
+        it = node.iter
+        if isinstance(it, ast.Call) and isinstance(it.func, ast.Name) and it.func.id == "zip" and len(it.args) >= 2 and not it.keywords and not node.orelse:
+            ts = [self.table(a, 1) for a in it.args]
+            loose = [i for i, (t, a) in enumerate(zip(ts, it.args)) if not (t and t[0] == "rows") and not isinstance(a, ast.Name)]
+            if any(t and t[0] == "rows" for t in ts) and loose and all(not isinstance(it.args[i], (ast.Starred, ast.GeneratorExp)) for i in loose):
+                # zip(TABLE, <expression>): the expression is evaluated once, before the loop, into a local
+                pre = []
+                for i in loose:
+                    self._zip_count = getattr(self, "_zip_count", 0) + 1
+                    nm = "_zipped%d" % self._zip_count
+                    pre.append(ast.fix_missing_locations(ast.copy_location(ast.Assign(targets=[ast.Name(id=nm, ctx=ast.Store())], value=it.args[i], type_comment=None), node)))
+                    it.args[i] = ast.copy_location(ast.Name(id=nm, ctx=ast.Load()), node)
+                t = self.table(it)
+                if t is not None:
+                    rows = list(t[1].keys) if t[0] == "pairs" else t[1]
+                    un = self.unroll(node, rows)
+                    if un:
+                        return pre + (un if isinstance(un, list) else [un])
+                return pre + [node]
         got = self._simple_generator(node.iter)
         if got is not None:
             pre = [ast.fix_missing_locations(x) for x in getattr(self, "_gen_pre", [])]
